@@ -244,6 +244,13 @@ func Fn(name string, n int, in []byte) []byte {
 	return UF("fn:"+name, n, in)
 }
 
+// ReplayLabel is the label of the violation (or witness) being replayed natively ("" under the engine or without a
+// replay file).
+func ReplayLabel() string {
+	load()
+	return rf.Label
+}
+
 // FnKnown returns the result the replayed model recorded for this argument of Fn, or nil. Native only.
 func FnKnown(name string, in []byte) []byte {
 	load()
